@@ -200,6 +200,47 @@ def storm(i, seed, root, bindir, n=16):
     return {'sc': sc, 'dir': d, 'trace': trace, 'problems': problems, 'cmds': cmds, 'census': census}
 
 
+def busy_wait_probe(root, bindir, hold_s=6.5):
+    """RedoDb models BEGIN IMMEDIATE as waiting for the write lock (busy timeout 60 s).  Bind that assumption: another
+    connection holds the write lock for longer than SQLite's and rusqlite's default timeouts (0 s / 5 s); a command that
+    starts meanwhile must wait and succeed"""
+    import sqlite3
+    import subprocess
+    d = os.path.join(root, 'busy_wait')
+    shutil.rmtree(d, ignore_errors=True)
+    pdir = os.path.join(d, 'p')
+    os.makedirs(pdir)
+    with open(os.path.join(pdir, 't.do'), 'w') as f:
+        f.write('echo t\n')
+    trace = os.path.join(d, 'trace.ndjson')
+    open(trace, 'w').close()
+    env = jobdrive.base_env(bindir, trace, {'REDO_LOG': '0'})
+    subprocess.run(['redo', 't'], cwd=pdir, env=env, stdin=subprocess.DEVNULL, stdout=subprocess.DEVNULL, stderr=subprocess.DEVNULL)
+    con = sqlite3.connect(os.path.join(pdir, '.redo', 'db.sqlite3'), isolation_level=None, timeout=30)
+    con.execute('BEGIN IMMEDIATE')
+    t0 = time.time()
+    procs = [subprocess.Popen(a, cwd=pdir, env=env, stdin=subprocess.DEVNULL, stdout=subprocess.PIPE, stderr=subprocess.PIPE)
+             for a in (['redo-targets'], ['redo-ifchange', 't'], ['redo', 't'])]
+    time.sleep(hold_s)
+    con.execute('ROLLBACK')
+    con.close()
+    problems, cmds = [], []
+    for p in procs:
+        try:
+            so, se = p.communicate(timeout=90)
+        except subprocess.TimeoutExpired:
+            p.kill()
+            so, se = p.communicate()
+        cmds.append({'argv': p.args, 'rc': p.returncode, 'stderr': se.decode('utf-8', 'replace')[-600:], 'waited_s': round(time.time() - t0, 1)})
+        if p.returncode != 0:
+            problems.append('%s: exit %s while another connection held the write lock for %.1f s: %s'
+                            % (' '.join(p.args), p.returncode, hold_s, se.decode('utf-8', 'replace')[-300:].replace('\n', ' | ')))
+    sc = {'id': 'busy_wait', 'hold_s': hold_s, 'j': 0, 'inherit': False}
+    with open(os.path.join(d, 'scenario.json'), 'w') as f:
+        json.dump({'scenario': sc, 'commands': cmds, 'problems': problems}, f, indent=1, default=str)
+    return {'sc': sc, 'dir': d, 'trace': trace, 'problems': problems, 'cmds': [], 'census': None}
+
+
 def validate(results, root, module, project, invariants):
     """one TLC run over the concatenation of all scenarios' projections; violations are attributed to their scenario"""
     segs = []
@@ -250,6 +291,7 @@ def run_check(pid, tier, focus, verdict):
         for i in range(12 if tier == 'quick' else 100):
             results.append(storm(i, rnd.randrange(1 << 30), root, bindir))
             n_storm += 1
+        results.append(busy_wait_probe(root, bindir))
     n_unl = 0
     for r in results:
         try:
